@@ -623,3 +623,31 @@ Definition nogap_ivalue (v : ivalue) : bool :=
   && oall (fun p => negb (f32_is_nan (vp_alpha p)) && nogap_quant (vp_quant p)) (iv_vamana v).
 Definition nogap_create2 (r : create2) : bool :=
   c2_schema_present r && forallb (fun kv => nogap_ivalue (snd kv)) (c2_schema r).
+
+(* ------------------------------------------------------------------ *)
+(* Vocabulary of the theorems and the witnesses of the refuted statements *)
+Definition pair_eq (p : Z * Z) : Prop := fst p = snd p.
+
+Definition doc_dim_ok (d : Z) : bool :=
+  in_range doc_vector_size_min doc_vector_size_max d || in_range doc_flat_vector_size_min doc_flat_vector_size_max d.
+
+(* lengths are lengths: the harness reports them as non-negative numbers *)
+Fixpoint lens_nonneg (q : query) : bool :=
+  match q with
+  | Qry _ qflat qvam qtext qstr qint qflt qsarr qand qor =>
+    let r (o : option (ropts query)) :=
+      match o with
+      | Some x => (0 <=? r_len x) && match r_filter x with Some f => lens_nonneg f | None => true end
+      | None => true end in
+    r qflat && r qvam && r qtext
+    && oall (fun o => 0 <=? s_len o) qstr && oall (fun o => 0 <=? s_len o) qsarr
+    && forallb lens_nonneg qand && forallb lens_nonneg qor
+  end.
+
+Definition flat_only_schema : ischema :=
+  [("vec"%string, mkIV "vectorFlat" (Some (mkVP 2 "euclidean" 0 0 0%N None)) None None false false)].
+
+Definition gap_schema (alpha : N) (q : option quantizer) : ischema :=
+  [("v"%string, mkIV "vectorVamana" None (Some (mkVP 2 "euclidean" 75 64 alpha q)) None false false)].
+Definition f32_nan : N := 2143289344%N.     (* 0x7FC00000 *)
+Definition f32_1_2 : N := 1067030938%N.     (* float32(1.2) *)
